@@ -40,6 +40,8 @@ import (
 	"github.com/alibaba/RedisShake/redis-shake/base"
 	utils "github.com/alibaba/RedisShake/redis-shake/common"
 	conf "github.com/alibaba/RedisShake/redis-shake/configure"
+	"github.com/alibaba/RedisShake/redis-shake/dbSync/slot"
+	"github.com/alibaba/RedisShake/redis-shake/dbSync/slotsupervisor"
 	"github.com/alibaba/RedisShake/redis-shake/metric"
 )
 
@@ -51,7 +53,7 @@ func init() {
 	props["C19"] = &prop{gen: genC19, run: runC19}
 }
 
-var c19Scenarios = []string{"echo", "sync", "synccluster", "syncresume", "synctgtcluster", "restore", "rump", "dump", "decode"}
+var c19Scenarios = []string{"echo", "sync", "synccluster", "syncresume", "synctgtcluster", "restore", "rump", "dump", "decode", "supervise"}
 var c19Levels = []string{"none", "error", "warn", "info", "debug"}
 var c19Fakes = []string{"ok", "autherr", "mute", "tgtdown", "srcdown"}
 
@@ -505,6 +507,41 @@ func c19Child(f []string) {
 	case "decode":
 		o.Type = conf.TypeDecode
 		runner = new(run.CmdDecode)
+	case "supervise":
+		// source re-discovery as updateSlotTopology runs it: a shard with two nodes that BOTH answer role:master (a fail-over in
+		// progress), then a second discovery on the node descriptor the first one returned — every known host is dialled with
+		// the source password and every failure is logged
+		o.Type = conf.TypeSync
+		second := c19StartFake(mode)
+		node := slot.SyncNode{Id: 0, Source: src.addr(), SourcePassword: spw, Target: []string{tgt.addr()},
+			TargetPassword: tpw, Slaves: []string{second.addr()}, SlotLeftBoundary: 0, SlotRightBoundary: 16383}
+		for round := 0; round < 2; round++ {
+			done := make(chan *slot.SyncNode, 1)
+			go func(n slot.SyncNode) {
+				defer func() {
+					if e := recover(); e != nil {
+						fmt.Println("CHILD supervisor ended:", e)
+						done <- nil
+					}
+				}()
+				res, err := slotsupervisor.New(n).GetSlotState()
+				if err != nil {
+					log.Errorf("DbSyncer[%d] source re-discovery failed: %v", n.Id, err)
+				}
+				done <- res
+			}(node)
+			var res *slot.SyncNode
+			select {
+			case res = <-done:
+			case <-time.After(8 * time.Second): // the retry ladder of an unreachable shard is 21 s; its first rounds are enough
+			}
+			if res == nil {
+				break
+			}
+			log.Infof("DbSyncer[%d] source is now %s, %d other node(s) known", res.Id, res.Source, len(res.Slaves))
+			node = *res
+		}
+		select {}
 	default:
 		return
 	}
